@@ -398,6 +398,24 @@ def r_execute(ck: Checker) -> None:
     a = unparse(calls[0].args[0]).removesuffix(".elements")
     ck.guard("only #sum / #sum+ body aggregates are rewritten", func, calls[0], f"{a}.ast_type == ASTType.BodyAggregate and {a}.function in (AggregateFunction.Sum, AggregateFunction.SumPlus)",
              "telescoping is additive: it is meaningless for #min/#max/#count")
+    # _replace_optimize edits the body of the objective it is given IN PLACE; the objectives remembered in self.objectives
+    # for the tuple-uniqueness test are the statements of the program: what is handed over must be a copy with its own body
+    ro = resolved_calls(ck.prg, func, f"ngo.{CLS}._replace_optimize")
+    ck.need(len(ro) == 1, "execute rewrites objectives at one site")
+    arg = unparse(ro[0].args[0])
+    copies = [a for a in find_nodes(func.node, lambda q: isinstance(q, ast.Assign)) if unparse(a.targets[0]) == arg and re.fullmatch(rf"{re.escape(arg)}\.update\(body=(\w+)\)", unparse(a.value).replace(" ", ""))]  # type: ignore[attr-defined]
+    fresh = False
+    nb = None
+    texts = {unparse(a.value) for a in copies}  # type: ignore[attr-defined]
+    if len(copies) == 1:
+        nb = re.fullmatch(rf"{re.escape(arg)}\.update\(body=(\w+)\)", unparse(copies[0].value).replace(" ", "")).group(1)  # type: ignore[union-attr,attr-defined]
+        d = single_def(func, nb)
+        lp = enclosing_loop(func, ro[0])
+        itm = ck.interp(func, None, mark_stmts={id(copies[0]): "copied"}, clear_marks_at={id(lp): "copied"} if lp is not None else None)
+        sts = itm.states(ro[0])
+        fresh = d is not None and unparse(d) in ("[]", "list()") and bool(sts) and all("copied" in s_.marks for s_ in sts)
+    ck.add("the objective handed to _replace_optimize has a body list of its own", fresh, func, ro[0], f"argument is {sorted(texts)}" + (f" with `{nb}` a new list" if fresh else ""),
+           "the in-place edit would otherwise change the statement stored in self.objectives: a second, identical objective no longer equals it, is taken for another objective with a unifying tuple and is rewritten on its own (its cost is counted twice)")
 
 
 RULES = [
@@ -409,5 +427,5 @@ RULES = [
     Rule("C13.replace-optimize", PG, r_replace_optimize),
     Rule("C13.TEMPLATE.elements", PG + ("C04", "C06"), r_template_elements, extra={"C20": ("rules are emitted on every path",)}),
     Rule("C13.TEMPLATE.optimize", PG + ("C04",), r_template_optimize, extra={"C20": ("rules are emitted on every path",)}),
-    Rule("C13.execute", P, r_execute),
+    Rule("C13.execute", P + ("C02", "C17"), r_execute),
 ]
